@@ -129,6 +129,9 @@ def run_programs(res, rng, nprog, tier):
             stats["different"] += 1
             seed, g, texts = gens[k]
             shape = classify(g, texts, name, kind)
+            owner = owner_fn(g, texts, name, kind)
+            if owner and "access-on-late-bound-parameter" in g.fn_flags.get(owner, ()):
+                shape = "access-on-late-bound-parameter"
             res.add_violation("C09/wrong-type/" + shape,
                               f"`{name}` ({'function' if kind == 'fn' else 'binder'}): glas shows {gen_types.show(got)}, Gleam assigns {gen_types.show(ty)}",
                               {"seed": seed, "texts": texts, "binder": name, "shown": gen_types.show(got), "expected": gen_types.show(ty)})
@@ -156,8 +159,22 @@ def run_programs(res, rng, nprog, tier):
         if out.startswith("valid "):
             mstats["model_valid"] += 1
         else:
-            mstats["model_invalid"] += 1
-            res.extra.setdefault("model_result_not_validated", []).append({"seed": seed, "result": out[:120]})
+            bad_fns = out[len("invalid("):out.index(")")].split(",")
+            # functions that call a rejected one inherit its unresolved result; the shape is recorded per function
+            flagged = {n for n, fl in g.fn_flags.items() if "access-on-late-bound-parameter" in fl}
+            def tainted(n, seen=()):
+                f = next((f for f in g.fns if f.name == n), None)
+                if f is None or n in seen: return False
+                if n in flagged: return True
+                return any(tainted(m, seen + (n,)) for m in set(re.findall(r"\(fr (\w+)\)", f.sexp)))
+            if all(tainted(n) for n in bad_fns):
+                mstats["model_known"] = mstats.get("model_known", 0) + 1
+                res.add_violation("C09/wrong-type/access-on-late-bound-parameter",
+                                  f"the engine's assignment for {','.join(bad_fns)} is not a typing (rejected by the proved checker): access on a late-bound parameter",
+                                  {"seed": seed, "texts": texts, "binder": bad_fns[0]})
+            else:
+                mstats["model_invalid"] += 1
+                res.extra.setdefault("model_result_not_validated", []).append({"seed": seed, "result": out[:120]})
         body = out.split(" ", 1)[1]
         fpart, lpart = body.split("|loc ")
         mfn = {x.split("=", 1)[0]: x.split("=", 1)[1] for x in fpart[3:].split(";") if x}
@@ -197,6 +214,16 @@ def run_programs(res, rng, nprog, tier):
     res.extra["feature_histogram"] = feats
     res.cov["distinct_nontrivial"] += stats["equal"] + stats["different"]
     return stats, vstats
+
+
+def owner_fn(g, texts, name, kind):
+    """the top-level function whose text contains the binder (or the function itself)"""
+    if kind == "fn":
+        return name
+    for f in g.fns:
+        if f.text and re.search(r"\b" + re.escape(name) + r"\b", f.text):
+            return f.name
+    return None
 
 
 def classify(g, texts, name, kind):
